@@ -233,6 +233,20 @@ func checkC09(c *Ctx) {
 				}
 				key := fmt.Sprintf("wait #%d in %s is bounded", nSel, fn)
 				c.check(timer && (done || !hasCtx), "R3", key, in, "timer case: %v; ctx.Done() case: %v (required: %v)", timer, done, hasCtx)
+				// the bound itself: 5 s in Stop; the option / the context's deadline / 5 s in StopWithContext
+				for _, st := range x.States {
+					if call, ok := isCallTo(st.Chan, "time.After"); ok {
+						d := call.Call.Args[0]
+						if !hasCtx {
+							n, isC := constInt(d)
+							c.check(isC && n == 5_000_000_000, "R3", fmt.Sprintf("wait #%d in %s is bounded by 5 s", nSel, fn), in, "timer duration %s", m.Sym.Of(d))
+						} else {
+							g := m.Gated(d)
+							okT := strings.Contains(g, ".Timeout") && strings.Contains(g, "time.Until(") && strings.Contains(g, "5000000000")
+							c.check(okT, "R3", fmt.Sprintf("wait #%d in %s is bounded by the caller's time-out", nSel, fn), in, "timer duration %s (required: opts.Timeout, else the context's deadline, else 5 s)", clip(g, 300))
+						}
+					}
+				}
 			case *ssa.UnOp:
 				if m.isBlockingInstr(in) {
 					c.viol("R3", "bare channel receive in "+fn, in, "a receive outside a select with a timer case can block the stop for ever")
